@@ -210,7 +210,7 @@ static J gen_special(Chooser &ch)
       feat["segments"] = J::arr({seg});
       J t = J::obj();
       t["model"] = "mass conserving";
-      t["ridge coordinates"] = J::arr({J::arr({jp(x0 - ch.lattice(1500e3, 4000e3, 100e3), y0 - 3000e3), jp(x0 - ch.lattice(1500e3, 4000e3, 100e3), y0 + 3000e3)})});
+      t["ridge coordinates"] = J::arr({J::arr({jp(x0 - ch.lattice(300e3, 4000e3, 100e3), y0 - 3000e3), jp(x0 - ch.lattice(300e3, 4000e3, 100e3), y0 + 3000e3)})});
       t["spreading velocity"] = ch.lattice(0.02, 0.1, 0.01);
       t["subducting velocity"] = ch.lattice(0.02, 0.1, 0.01);
       t["coupling depth"] = ch.pick<double>({0.0, 50e3, 80e3, 100e3});
@@ -218,6 +218,9 @@ static J gen_special(Chooser &ch)
       t["taper distance"] = ch.pick<double>({0.0, 0.0, 100e3});
       t["min distance slab top"] = -ch.lattice(50e3, 200e3, 50e3);
       t["max distance slab top"] = ch.lattice(100e3, 200e3, 50e3);
+      // 70%: the slab's extent reaches as far above its top as the model does (a negative top truncation), so that the wedge above
+      // the slab is painted by the model
+      if (ch.chance(70)) { J &sg = feat["segments"][0]; sg["top truncation"] = J::arr({t["min distance slab top"]}); }
       t["reference model name"] = ch.pick<std::string>({"half space model", "plate model"});
       if (ch.flip()) { t["apply spline"] = true; t["number of points in spline"] = static_cast<int>(ch.range(3, 8)); }
       feat["temperature models"] = J::arr({t});
